@@ -6,7 +6,7 @@ import json, os, re, shutil, subprocess, sys
 prop, var = sys.argv[1], sys.argv[2]
 tier = sys.argv[3] if len(sys.argv) > 3 else 'quick'
 src = '%s/%s/%s' % (os.environ.get('SEEDSRC', '/tmp/seedout'), prop, var)
-out = subprocess.run(['/verif/tools/seedcheck.sh', prop, src, tier], stdout=subprocess.PIPE, stderr=subprocess.STDOUT).stdout.decode()
+out = subprocess.run(['/verif/tools/seedcheck.sh', prop, src, tier], stdout=subprocess.PIPE, stderr=subprocess.STDOUT).stdout.decode('utf-8', 'replace')
 print(out[:1500])
 m = re.search(r'tests=\[(.*?)\] demo_pristine=(\d+) demo_mutant=(\d+) check_exit=(\d+)', out)
 if not m:
